@@ -36,8 +36,15 @@ def run(repo, filt='', seed=0, timeout=1500):
             m = re.match(r'WITNESS property=(\S+) obligation=(\S+) input=(.*?) got=(.*?) want=(.*)$', l.strip())
             if m:
                 wits.append({'property': m.group(1), 'obligation': m.group(2), 'input': m.group(3)[:600], 'got': m.group(4)[:300], 'want': m.group(5)[:300]})
+        # a test binary killed by a signal (native stack overflow, abort) takes every test with it: report the
+        # last input announced with a RUNNING line as the culprit
+        if 'test result:' not in out and re.search(r'overflowed its stack|SIGABRT|SIGSEGV|signal: \d+|process abort', out):
+            running = re.findall(r'RUNNING (\S+) (.*)', out)
+            culprit = running[-1] if running else ('?', 'unknown input (no RUNNING line)')
+            wits.append({'property': 'C01', 'obligation': 'process.killed_by_signal', 'input': culprit[1][:600],
+                         'got': 'the process was killed (' + (re.search(r'overflowed its stack|SIGABRT|SIGSEGV|signal: \d+', out).group(0)) + ')', 'want': 'layout or error'})
         cases = sum(int(m.group(1)) for m in re.finditer(r'CASES \S+ (\d+)', out))
-        built = 'test result:' in out
+        built = 'test result:' in out or bool(wits)
         return {'ok': built, 'witnesses': wits, 'cases': cases, 'log': out[-3000:], 'wall': time.time() - t0,
                 'cmd': 'cargo test --offline --test vx_witness -- ' + filt + ' (scratch copy of the working tree + /verif/witness)'}
     except subprocess.TimeoutExpired:
